@@ -248,6 +248,7 @@ pub fn suite(name: &str, cfg: Cfg, tables: Tables, ops: Vec<Op>, depth: usize) -
         depth,
         shadow: None,
         log_io: false,
+        uncapped_levels: 2,
         max_heavy: 0,
         readback: true,
     }
@@ -612,6 +613,7 @@ pub fn crash_edge_ops() -> Vec<Op> {
 fn crash_suite(name: &str, cfg: Cfg, tables: Tables, ops: Vec<Op>, depth: usize) -> Suite {
     let mut s = suite(name, cfg, tables, ops, depth);
     s.log_io = true;
+    s.uncapped_levels = 1;
     s.readback = false;
     s
 }
